@@ -102,7 +102,7 @@ def roundtrip(sim, hist):
     try:
         deserialize_all(it2, g, c, p, ph)
     except Exception as ex:  # noqa: BLE001
-        viols.append(({'kind': 'deserialize_raises', 'event': last, 'exc': type(ex).__name__},
+        viols.append(({'kind': 'deserialize_raises', 'event': last, 'exc': common.exc_family(ex)},
                       f'deserialising the bytes of {list(hist)} raised {type(ex).__name__}: {str(ex)[:120]}'))
         return viols
     got = tuple(b.getvalue() for b in bufs2)
@@ -139,12 +139,12 @@ def pretty_compare(hist):
         for name in hist:
             ix.EVENTS[name](sp)
     except Exception as ex:  # noqa: BLE001
-        return [({'kind': 'pretty_original_raises', 'exc': type(ex).__name__}, f'pretty printing the calls {list(hist)} raised {type(ex).__name__}: {str(ex)[:100]}')]
+        return [({'kind': 'pretty_original_raises', 'exc': common.exc_family(ex)}, f'pretty printing the calls {list(hist)} raised {type(ex).__name__}: {str(ex)[:100]}')]
     it_d, bufs_d = fresh_pair('pretty')
     try:
         deserialize_all(it_d, g, c, p, ph)
     except Exception as ex:  # noqa: BLE001
-        return [({'kind': 'pretty_deserialize_raises', 'exc': type(ex).__name__}, f'deserialising {list(hist)} into the pretty printer raised {type(ex).__name__}: {str(ex)[:100]}')]
+        return [({'kind': 'pretty_deserialize_raises', 'exc': common.exc_family(ex)}, f'deserialising {list(hist)} into the pretty printer raised {type(ex).__name__}: {str(ex)[:100]}')]
     for k in range(3):
         a, b = steps_of(bufs_p[k].getvalue()), steps_of(bufs_d[k].getvalue())
         if a != b:
